@@ -236,7 +236,7 @@ fn c19_clocktime_sub_small_no_tick_error() {
 	kani::cover!(no_borrow && x > 0.0, "w:no-borrow");
 }
 
-// @h prop=C19 tier=thorough kind=main timeout=1750
+// @h prop=C19 tier=thorough kind=main timeout=3000
 // @bounds ticks <= 2^53, fraction in [0,1), 0 <= x <= 1/2: (t + x) - x is t, or the same instant written on the other side of a tick boundary (fraction within 2^-40 of it)
 // @funcs <ClockTime as Add<f64>>::add, <ClockTime as Sub<f64>>::sub
 // @catches F14: (648, 1-2^-53) + 5.1e-15 - 5.1e-15 = (648, 0.0), a whole tick early
